@@ -5,5 +5,5 @@ S=/tmp/scr_k_$$; rsync -a --exclude target --exclude .git /repo/ $S/
 ( cd $S && patch -p1 -s < $PATCH ) || { echo "PATCH FAILED"; rm -rf $S; exit 9; }
 tag=$(python3 -c "import hashlib,sys;print(hashlib.sha1(sys.argv[1].encode()).hexdigest()[:10])" $S)
 [ -d /verif/.cache/kani-target-repo ] && cp -r /verif/.cache/kani-target-repo /verif/.cache/kani-target-scratch-$tag
-VERIF_REPO=$S python3 /verif/bin/vcheck --dev-kani $FILE $FILTER 2>&1 | grep -v "^WARNING" | grep -E "^(success|failed|tool_error|missing|unknown)|FAILED:|harnesses,|^error" | cut -c1-220
+VERIF_REPO=$S DEV_TIER=${DEV_TIER:-quick} python3 /verif/bin/vcheck --dev-kani $FILE $FILTER 2>&1 | grep -v "^WARNING" | grep -E "^(success|failed|tool_error|missing|unknown)|FAILED:|harnesses,|^error" | cut -c1-220
 rm -rf $S /verif/.cache/kani-target-scratch-$tag /verif/.cache/kani-results-scratch-$tag.json /verif/.cache/kani-scratch-$tag.lock
